@@ -1454,5 +1454,8 @@ DFR8Pshutdown(void)
     free(paletteBuf);
     paletteBuf = NULL;
 
+    /* Allow the interface to be initialized again */
+    library_terminate = FALSE;
+
     return SUCCEED;
 } /* end DFR8Pshutdown() */
